@@ -601,3 +601,24 @@ func loadOfField(v ssa.Value) (string, ssa.Value, bool) {
 	}
 	return fieldNameOf(v)
 }
+
+// termPos: a usable source position for the end of a block (terminators
+// often carry none): the last instruction in the block that has one.
+func termPos(b *ssa.BasicBlock) token.Pos {
+	for i := len(b.Instrs) - 1; i >= 0; i-- {
+		if p := b.Instrs[i].Pos(); p.IsValid() {
+			return p
+		}
+		if v, ok := b.Instrs[i].(ssa.Value); ok {
+			_ = v
+		}
+	}
+	for _, p := range b.Preds {
+		for i := len(p.Instrs) - 1; i >= 0; i-- {
+			if pp := p.Instrs[i].Pos(); pp.IsValid() {
+				return pp
+			}
+		}
+	}
+	return token.NoPos
+}
